@@ -32,6 +32,13 @@ Init == \/ \E at \in {p \in TruncPoints : p >= 0 /\ p < FileLen} : plan = [k |->
               /\ Structural(Regions[i]) \/ (pos - Regions[i].s) % 7 = 0          \* data regions: every 7th byte
               /\ plan = [k |-> "flip", at |-> pos, how |-> h, field |-> "", cls |-> ""]
         \/ \E fld \in LieFields, c \in LieClasses : plan = [k |-> "lie", at |-> 0, how |-> "", field |-> fld, cls |-> c]
+        (* the footer length relative to the FILE size (the reader seeks to size - 8 - len) *)
+        \/ \E c \in {"fsize", "fsize_m1", "fsize_m4", "fsize_m7", "fsize_m8", "fsize_m9"} :
+              plan = [k |-> "lie", at |-> 0, how |-> "", field |-> "file.footer_len", cls |-> c]
+        (* length streams of delta-encoded string pages: a negative length made up for by its neighbour (the sum still matches
+           the data bytes), a negative one, a huge one, an off-by-one *)
+        \/ \E st \in {"length", "prefix", "suffix"}, c \in {"neg_compensated", "neg", "huge", "plus1_first"} :
+              plan = [k |-> "delta_lie", at |-> 0, how |-> "", field |-> st, cls |-> c]
 Next == UNCHANGED plan
 (* quick tiers take every SampleK-th corrupted byte position (deterministic, so recorded findings replay in every run) *)
 Emit == (SampleK = 1 \/ plan.k # "flip" \/ plan.at % SampleK = 0) => PrintT(ToJson(plan))
